@@ -378,6 +378,15 @@ class ProgGen(object):
             self.exns = (self.exns or ["Ex0", "Ex1", "Ex2"]) + ["ExP0", "ExP1"]
         self.exnp = {"ExP0": SI, "ExP1": BI if "bi" in self.feat else SI}
 
+    def filter_scope(self, inner):
+        """The names a loop filter may mention: the loop variable and names that nothing can assign.  (A filter that
+        mentions a variable the loop body assigns is rejected by the compiler: open finding, fixed program F14.)"""
+        sc = Scope()
+        for x, (vt, a) in inner.lookup_all().items():
+            if not a:
+                sc.vars[x] = (vt, a)
+        return sc
+
     def throw_node(self, ex, scope, d):
         args = [self.expr(self.exnp[ex], scope, max(d - 1, 0))] if ex in self.exnp else []
         return {"e": "throw", "exn": ex, "args": args}
@@ -583,7 +592,10 @@ class ProgGen(object):
             body = self.block(inner, d - 1, r.randint(1, 3))
             self.top_loop -= 1
             self.in_loop -= 1
-            return {"e": "for", "x": i, "lo": lit(SI, lo), "hi": lit(SI, hi), "body": body}
+            out = {"e": "for", "x": i, "lo": lit(SI, lo), "hi": lit(SI, hi), "body": body}
+            if "filt" in self.feat and self.in_fun and r.random() < 0.5:      # opt-in feature: for i in a..b | c
+                out["filt"] = self.expr(BOOL, self.filter_scope(inner), max(d - 1, 1))
+            return out
         if c == "forin":
             srcs = [(x, vt) for x, (vt, a) in allv.items() if isinstance(vt, list) and vt[0] in ("list", "gen")]
             gfs = [i for i, f in enumerate(self.funs) if isinstance(f["rt"], list) and f["rt"][0] == "gen" and self.here(f)]
@@ -607,7 +619,10 @@ class ProgGen(object):
             body = self.block(inner, d - 1, r.randint(1, 3))
             self.top_loop -= 1
             self.in_loop -= 1
-            return {"e": "forin", "x": i, "src": src, "body": body, "et": et}
+            out = {"e": "forin", "x": i, "src": src, "body": body, "et": et}
+            if "filt" in self.feat and self.in_fun and r.random() < 0.5:
+                out["filt"] = self.expr(BOOL, self.filter_scope(inner), max(d - 1, 1))
+            return out
         if c == "brk":
             return {"e": "if", "c": self.expr(BOOL, scope, d), "a": {"e": r.choice(["break", "iterate"])}, "b": {"e": "unit"}, "t": UNIT}
         if c == "ret":
@@ -1119,7 +1134,7 @@ def generate(seed, n, features=None, emph=(), extras=True):
     for i in range(n):
         g = ProgGen(seed * 100003 + i, features=features, emph=emph)
         if extras and features is None and i % 3 == 2:
-            g.feat |= {"tup", "coll"}
+            g.feat |= {"tup", "coll", "filt"}
             if "try" in g.feat and i % 2:
                 g.enable_payload()
         out.append(g.program("g%d_%d" % (seed, i)))
